@@ -22,7 +22,7 @@ import (
 	"github.com/flamego/flamego/verifharness/internal/rt"
 )
 
-const rule = "case = one handler of a supported return shape (string, []byte, error (from func() and from func(Context)), *string, *[]byte, named string, named []byte, any holding a string / a byte slice / an error, (named int, string), (int,string), (int,[]byte), (int,error), (string,error), ([]byte,error); func() (int,string) both as the auto-wrapped fast path and as a named func type invoked reflectively) optionally flushing, sending a status line or writing itself first and then returning generated values (arbitrary bytes, occasionally 0.5..70 KB of them, empty, nil, nil/non-nil errors of 6 concrete types incl. one with an empty message and two whose dynamic value is the zero value of its type, status 100..999), placed as middleware, group handler, route handler or action, followed by a marker handler; optionally a custom ReturnHandler mapped at application or request scope. " +
+const rule = "case = one handler of a supported return shape (string, []byte, error (from func() and from func(Context)), *string, *[]byte, named string, named []byte, any holding a string / a byte slice / an error, (named int, string), (int,string), (int,[]byte), (int,error), (string,error), ([]byte,error); func() (int,string) both as the auto-wrapped fast path and as a named func type invoked reflectively) optionally flushing, sending a status line, writing itself, cancelling its request or calling Next() first and then returning generated values (arbitrary bytes, occasionally 0.5..70 KB of them, empty, nil, nil/non-nil errors of 6 concrete types incl. one with an empty message and two whose dynamic value is the zero value of its type, status 100..999), placed as middleware, group handler, route handler or action, followed by a marker handler; optionally a custom ReturnHandler mapped at application or request scope. " +
 	"Oracle: an own table (status, body, chain continues?) checked on a spy writer (with or without a WriteString method; after the handler's own output, if any: the returned values are rendered all the same), 'marker ran <=> nothing was written', fast path == reflective path, and a custom ReturnHandler receives exactly the returned values while the table is not applied. " +
 	"non-trivial = empty / nil / zero results, a nil error in a pair, a pointer or interface result, a non-200 status, a position other than the route handler, or a custom ReturnHandler; distinct by case text"
 
